@@ -1267,11 +1267,14 @@ class IndexHierarchy(IndexBase):
         if pos is not None:
             if pos == 0:
                 return self._levels.index.values
-            return np.unique(
+            array = np.unique(
                     concat_resolved(
                     list(self._levels.index_array_at_depth(pos))
                     ))
-        return np.unique(array2d_to_array1d(self.values_at_depth(sel)))
+        else:
+            array = np.unique(array2d_to_array1d(self.values_at_depth(sel)))
+        array.flags.writeable = False
+        return array
 
     @doc_inject()
     def equals(self,
